@@ -44,6 +44,33 @@ def watchdog(seconds):
         signal.signal(signal.SIGALRM, old)
 
 
+def vandalise(x):
+    """A mutable result belongs to the caller: edit it in place (after it was recorded); later calls must not notice."""
+    try:
+        if isinstance(x, list):
+            x.reverse()
+            del x[len(x) // 2:]
+            x.append(None)
+        elif isinstance(x, (dict, set)):
+            x.clear()
+    except Exception:
+        pass
+
+
+class LatShim:
+    """A context handle whose .lattice is a given (unpickled / copied) lattice object; everything else delegates."""
+
+    def __init__(self, ctx, lattice):
+        self.__dict__["_c"] = ctx
+        self.__dict__["lattice"] = lattice
+
+    def __getattr__(self, name):
+        return getattr(self._c, name)
+
+    def __getitem__(self, key, **kw):
+        return self._c.__getitem__(key, **kw)
+
+
 def _positions(labels, pos):
     return [pos.get(x, -1) for x in labels]
 
@@ -83,6 +110,7 @@ class CtxRecorder:
         self.ppos = {x: j + 1 for j, x in enumerate(self.plabels)}
         self.ctx = self.C.Context(self.olabels, self.plabels, table.bools())
         self._members = None
+        vandalise(self.ctx.bools)           # the list returned by .bools is the caller's
         self.ev('ctx.new', n=n, m=m, rows=rows, tag=tag)
         return self.ctx
 
@@ -191,6 +219,7 @@ class CtxRecorder:
         else:
             res = [[self.O(x), self.P(i)] for x, i in r]
         self.ev('neighbors', objs=objs, raw=raw, res=res)
+        vandalise(r)
 
     # ------------------------------------------------------------------ C06
     def lat_order(self):
@@ -318,6 +347,7 @@ class CtxRecorder:
                     right = self.ppos.get(toks[2], -1) if len(toks) > 2 else 0
                     rows.append([kind, left, right])
                 self.ev('relations.str', unary=unary, excl=excl, which=which, out=out, rows=rows)
+            vandalise(rel)
 
     # ------------------------------------------------------------------ C18
     def attributes(self, idx):
@@ -673,7 +703,8 @@ def pick_pairs(N, rng, limit):
     return sorted(out)
 
 
-def drive(rec, table, b, families, rng, exhaustive_queries, nsub=10, nmulti=12, label_variant=0, construct=True):
+def drive(rec, table, b, families, rng, exhaustive_queries, nsub=10, nmulti=12, label_variant=0, construct=True,
+          touch_cached=True):
     """Record one behaviour: construct the context, then the calls of the requested families."""
     n, m = table.n, table.m
     prop = sorted(families)[0][:3]
@@ -748,7 +779,7 @@ def drive(rec, table, b, families, rng, exhaustive_queries, nsub=10, nmulti=12, 
         T(rec.relations)
     if families & lattice_fams:
         T(rec.lat_list)          # first touch of the lazy lattice; the iteration is the index base
-    elif b % 2 == 1 and not nolattice and min(n, m) <= 12:
+    elif touch_cached and b % 2 == 1 and not nolattice and min(n, m) <= 12:
         # ... and run the lattice-free calls on a handle whose lattice is already cached on the other half
         T(rec.lat_list)
     if 'C01' in families:
